@@ -3,8 +3,14 @@
 package manager
 
 import (
-	"time"
+	"log"
+	"os"
+	"path/filepath"
 	"sort"
+	"strings"
+	"time"
+
+	"github.com/spq/pkappa2/internal/index/converters"
 
 	"github.com/spq/pkappa2/internal/index"
 	"github.com/spq/pkappa2/internal/tools/bitmask"
@@ -150,4 +156,43 @@ func (mgr *Manager) VerifCloseIndexes() {
 	case <-c:
 	case <-t.C:
 	}
+}
+
+// VerifConverterRemoved delivers what the converter-directory watcher posts to the service loop when
+// it sees a Remove or Rename event for path (the harness does not touch the directory, so the real
+// watcher stays silent and the moment of the delivery is the harness' choice).
+func (mgr *Manager) VerifConverterRemoved(path string) {
+	c := make(chan struct{})
+	mgr.jobs <- func() {
+		defer close(c)
+		if err := mgr.removeConverter(path); err != nil {
+			log.Printf("error while removing converter: %v", err)
+		}
+		name := strings.TrimSuffix(filepath.Base(path), filepath.Ext(path))
+		mgr.event(Event{
+			Type: "converterDeleted",
+			Converter: &converters.Statistics{
+				Name:      name,
+				Processes: []converters.ProcessStats{},
+			},
+		})
+	}
+	<-c
+}
+
+// VerifConverterWritten delivers what the watcher's debounce timer posts after a Write / Chmod event
+// for path: the converter's processes are restarted and its tags' matches queued again.
+func (mgr *Manager) VerifConverterWritten(path string) {
+	c := make(chan struct{})
+	mgr.jobs <- func() {
+		defer close(c)
+		fileInfo, err := os.Stat(path)
+		if err != nil || fileInfo.IsDir() {
+			return
+		}
+		if err := mgr.restartConverterProcess(path); err != nil {
+			log.Printf("error while restarting converter: %v", err)
+		}
+	}
+	<-c
 }
